@@ -449,6 +449,9 @@ impl<'tcx> Cx<'tcx> {
                             js(&self.path_args(rdid, inst.args)),
                             kind
                         );
+                        // the type arguments of the resolved instance (for an impl method: the impl's own parameters first), in the order of its `generics`
+                        let rt: Vec<String> = inst.args.iter().filter_map(|a| a.as_type()).map(|x| js(&self.ty(x))).collect();
+                        let _ = write!(t, ",\"res_targs\":[{}]", rt.join(","));
                     }
                 } else {
                     let _ = write!(t, ",\"indirect\":{}", js(&self.ty(fty)));
